@@ -9,8 +9,8 @@ CONSTANTS
   Incs = {1, 3}
   InitWins = {1, 5}
   MaxFrames = {1, 3}
-  MaxSend = 3
-  MaxCtl = 2
+  MaxSend = 2
+  MaxCtl = 3
   OutCap = 4
   Eager = TRUE
   MaxCtlQ = 1
